@@ -58,12 +58,34 @@ def run(ctx: Ctx):
     ctx.check(locs.get("variable_names") == "{var for var in self.dependents() if var not in symbols}", "R13.a", mv.key("used-minus-defined"), "used (keys of dependents()) minus defined", f"missing_variables: variable_names is {locs.get('variable_names')}", mv.where())
     rets = [norm(n.value) for n in ast.walk(mv.node) if isinstance(n, ast.Return)]
     ctx.check(rets == ["{var: i for i, var in enumerate(sorted(variable_names))}"], "R13.a", mv.key("numbering"), "numbered in sorted order", f"missing_variables returns {rets}", mv.where())
+    from sa import av as _av
+
+    from . import odemodel
+
     oi = sm.func("ode.py", "ODE.__init__")
-    st = {norm(n.targets[0]): norm(n.value) for n in ast.walk(oi.node) if isinstance(n, ast.Assign)}
-    ctx.check(st.get("self._symbols") == "symbols" and st.get("symbols['time']", st.get('symbols["time"]')) == "t", "R13.a", oi.key("symbols"), "ODE.symbols = every atom of the components + time", f"ODE.__init__ stores symbols as {st.get('self._symbols')}", oi.where())
+    _v, env_ = odemodel.construction(ctx, "ODE.__init__")
+    symv = env_.get("self._symbols")
+    if symv is None or _av.has_unk(symv):
+        ctx.undecided("R13.a", oi.key("symbols"), "what ODE.__init__ stores as the model's symbols is not understood", oi.where())
+    else:
+        base, extra = odemodel.setitem_chain(symv)
+        src = odemodel.field_of(base, 2)
+        okb = src is not None and "time" in extra and extra["time"] in (env_.get("self.t"), ("call", "sympy.Symbol", (_av.C("t"),), ()))
+        ctx.check(okb, "R13.a", oi.key("symbols"), "ODE.symbols = every atom of the components + time", f"ODE.__init__ stores symbols as {_av.show(symv)[:100]}, not the symbols gathered from the components plus `time`", oi.where())
     ga = sm.func("ode.py", "gather_atoms")
-    n_sym = sum(1 for n in ast.walk(ga.node) if isinstance(n, ast.Assign) and isinstance(n.targets[0], ast.Subscript) and norm(n.targets[0].value) == "symbols" and norm(n.targets[0].slice).endswith(".name") and norm(n.value).endswith(".symbol"))
-    ctx.check(n_sym == 4, "R13.a", ga.key("symbols-of-all-kinds"), "parameters, states, intermediates and state derivatives are defined symbols", f"gather_atoms registers symbols for {n_sym} of the 4 atom kinds", ga.where())
+    gf = odemodel.gather_fields(ctx)
+    if gf is None or not gf["symbols"].get("_understood"):
+        ctx.undecided("R13.a", ga.key("symbols-of-all-kinds"), "how gather_atoms registers symbols is not understood", ga.where())
+    else:
+        good = 0
+        for attr in odemodel.KINDS:
+            recs = gf["symbols"].get(attr, [])
+            if len(recs) == 1:
+                d, item = recs[0]
+                bv = ("bv", d)
+                if item == ("kv", ("attr", bv, "name"), ("attr", bv, "symbol")):
+                    good += 1
+        ctx.check(good == 4, "R13.a", ga.key("symbols-of-all-kinds"), "parameters, states, intermediates and state derivatives are defined symbols", f"gather_atoms registers symbols[name] = atom.symbol for {good} of the 4 atom kinds", ga.where())
 
     ctx.rule("R13.b", "sibling agreement: rhs, monitor_values, missing_values and scheme all unpack the missing variables, append the formal under the same condition and hand the block to the template; both python templates splice it before the body", floor=16)
     from . import util
